@@ -47,11 +47,11 @@ func TestVerif(t *testing.T) {
 	defer r.Close()
 	selfCheckClasses(t)
 
-	nA := r.N(400, 6000)
+	nA := r.N(1000, 6000)
 	for i := 0; i < nA; i++ {
 		r.Run(i, fmt.Sprintf("direct-%d", i), func(c *rep.Case) { runDirect(t, r, c, i) })
 	}
-	nB := r.N(128, 2000)
+	nB := r.N(256, 2000)
 	for i := 0; i < nB; i++ {
 		r.Run(groupB+i, fmt.Sprintf("e2e-%d", i), func(c *rep.Case) { runE2E(t, r, c, groupB+i) })
 	}
